@@ -242,7 +242,12 @@ def rand_name(rnd):
     r = rnd.random()
     if r < 0.2:
         return []
-    body = b"".join(rnd.choice(NAME_ALPHABET) for _ in range(rnd.choice([1, 2, 4, 7, 12, 30]))).strip(b" ")
+    body = b"".join(rnd.choice(NAME_ALPHABET) for _ in range(rnd.choice([1, 2, 4, 7, 12, 30])))
+    # (a name may end in blanks -- the line ends at the newline, not at the last visible character)
+    if rnd.random() < 0.8:
+        body = body.rstrip(b" ")
+    elif rnd.random() < 0.5:
+        body += b"\t"
     return list((b"@" if r < 0.45 else b"/") + body)
 
 
